@@ -73,7 +73,8 @@ def make_scenario(rng, ctx, idx, topo_share=0.2):
         else:
             graphs.append({"kind": "raw", "gid": "g-%d-%d" % (idx, k),
                            "spec": L.gen_raw_spec(rng, maxlen=maxlen, floats=rng.random() < 0.15)})
-    return {"graphs": graphs, "target": rng.randrange(n), "disjoint": rng.random() < 0.35}
+    return {"graphs": graphs, "target": rng.randrange(n), "disjoint": rng.random() < 0.35,
+            "mutate": ("m%d-%d" % (idx, rng.randrange(10 ** 6))) if rng.random() < 0.4 else None}
 
 
 def build_scenario(sc):
@@ -134,7 +135,41 @@ def attempt(fn):
 # --------------------------------------------------------------------------
 # correspondence
 
+def observe_doc(text, fmt):
+    """the implementation's text as an observation: ["ok", document model] or ["docerr", why] - never an exception"""
+    if text is None:
+        return ["ok", None], None
+    try:
+        doc = L.parse_text(text)
+    except Exception as e:
+        return ["docerr", "%s: %s" % (type(e).__name__, str(e)[:200])], None
+    if doc["fmt"] != fmt:
+        return ["docerr", "text is %s, asked for %s" % (doc["fmt"], fmt)], None
+    if doc.get("extra") or (fmt == "graphml" and doc.get("edgedefault") != "undirected") or \
+            (fmt == "json" and doc.get("graph") not in ({}, {"node_default": {}, "edge_default": {}})):
+        return ["docerr", "document has parts the model does not know: %s" % doc.get("extra")], L.impl_doc_norm(doc)
+    if not L.doc_in_model(doc):
+        return ["docerr", "document outside the model (key ids not d<n>, or not simple)", L.impl_doc_norm(doc)], L.impl_doc_norm(doc)
+    return ["ok", L.impl_doc_norm(doc)], L.impl_doc_norm(doc)
+
+
 def run_scenario_corr(sc, res, lines, expect, malformed_rng=None):
+    """never raises on an implementation / parsing exception: a scenario that cannot be carried through is
+    recorded as a disagreement"""
+    n0 = len(lines)
+    try:
+        _run_scenario_corr(sc, res, lines, expect, malformed_rng)
+    except core.Infra:
+        raise
+    except Exception as e:
+        del lines[n0:]
+        del expect[n0:]
+        import traceback
+        res.disagreements.append({"case": {"op": "scenario", "scenario": sc}, "impl": "exception while driving the implementation: %s: %s | %s" % (
+            type(e).__name__, str(e)[:300], traceback.format_exc()[-600:]), "model": None})
+
+
+def _run_scenario_corr(sc, res, lines, expect, malformed_rng=None):
     im, gids = build_scenario(sc)
     try:
         tgt = gids[sc["target"]]
@@ -143,36 +178,40 @@ def run_scenario_corr(sc, res, lines, expect, malformed_rng=None):
         expect.append((["ok", None], {"op": "load"}))
         nt = nontrivial_graph(im, tgt)
         snap_hash = core.sha(canon(L.snapshot(im.st, tgt)))
-        texts = {}
+        texts, docs = {}, {}
         for fmt in ("graphml", "json"):
             r = attempt(lambda: im.serialize(tgt, fmt))
             if r[0] == "ok":
                 texts[fmt] = r[1]
-                doc = L.parse_text(r[1]) if r[1] is not None else None
-                if doc is not None:
-                    assert doc["fmt"] == fmt and L.doc_simple(doc)
-                    if doc.get("extra") or (fmt == "graphml" and doc.get("edgedefault") != "undirected") or \
-                            (fmt == "json" and doc.get("graph") not in ({}, {"node_default": {}, "edge_default": {}})):
-                        raise core.Infra("document has parts the model does not know: %s" % doc.get("extra"))
-                r = ["ok", L.impl_doc_norm(doc)]
+                r, docs[fmt] = observe_doc(r[1], fmt)
             lines.append(L.dumps([px + "serialize", L.val(tgt), fmt]))
             expect.append((r, {"op": "serialize", "fmt": fmt, "scenario": sc}))
             res.count("op:%sserialize:%s" % (px, fmt))
         for gg in gids:
             validate_step(im, gg, lines, expect, res, {"scenario": sc})
         validate_step(im, "no-such-graph", lines, expect, res, {"scenario": sc})
+        if sc.get("mutate"):
+            # the held model is edited after it was saved; the driver is re-loaded with the edited store
+            nids = L.node_ids(im, tgt)
+            ops = L.mutate_graph(im.graph(tgt), nids, sc["mutate"])
+            for o in ops:
+                res.count("mutate:" + o)
+            lines.append(L.dumps(im.load_op()))
+            expect.append((["ok", None], {"op": "load"}))
         k = 0
         for fmt, text in texts.items():
             if text is None:
                 continue
-            doc = L.impl_doc_norm(L.parse_text(text))
+            doc = docs.get(fmt)
+            if doc is None:
+                continue
             for entry, policy in IMPORT_PLAN:
                 k += 1
                 newid = tgt if policy == "keep" else "copy-%d" % k
                 r = attempt(lambda: L.val(im.import_(entry, text, newid if entry in ("string", "file") else None)))
                 lines.append(L.dumps([px + "import", entry, doc, L.val(newid)]))
                 expect.append((r, {"op": "import", "entry": entry, "fmt": fmt, "policy": policy, "scenario": sc}))
-                res.count("op:%simport:%s:%s:%s" % (px, fmt, entry, policy))
+                res.count("op:%simport:%s:%s:%s%s" % (px, fmt, entry, policy, ":after-edit" if sc.get("mutate") else ""))
                 if r[0] == "err":
                     res.count("err:" + r[1])
                 lines.append(L.dumps([px + "dump"]))
@@ -180,7 +219,7 @@ def run_scenario_corr(sc, res, lines, expect, malformed_rng=None):
                 if r[0] == "ok":
                     r2 = attempt(lambda: im.serialize(r[1][1], fmt))
                     if r2[0] == "ok":
-                        r2 = ["ok", L.impl_doc_norm(L.parse_text(r2[1])) if r2[1] is not None else None]
+                        r2, _ = observe_doc(r2[1], fmt)
                     lines.append(L.dumps([px + "serialize", r[1], fmt]))
                     expect.append((r2, {"op": "reserialize", "entry": entry, "fmt": fmt, "policy": policy, "scenario": sc}))
                     validate_step(im, r[1][1], lines, expect, res, {"entry": entry, "fmt": fmt, "policy": policy, "scenario": sc})
@@ -247,9 +286,13 @@ def malformed_steps(im, gids, texts, rng, res, lines, expect, sc):
         for how in ("mixed", "nogid", "nonid", "emptynid", "nonodes", "nosource"):
             if how == "nosource" and fmt != "json":
                 continue
-            t2 = edit_text(text, fmt, how, rng)
-            doc = L.impl_doc_norm(L.parse_text(t2))
-            if not L.doc_simple(L.parse_text(t2)):
+            try:
+                t2 = edit_text(text, fmt, how, rng)
+            except Exception:
+                res.count("malformed:edit-failed")
+                continue
+            ob, doc = observe_doc(t2, fmt)
+            if ob[0] != "ok" or doc is None:
                 continue
             p = im.write(t2)
             r = attempt(lambda: L.val(im.imp.get_graph_id(graph_file=p)))
@@ -291,7 +334,7 @@ def malformed_steps(im, gids, texts, rng, res, lines, expect, sc):
         for fmt in ("graphml", "json"):
             r = attempt(lambda: im.serialize("bad-graph", fmt))
             if r[0] == "ok":
-                r = ["ok", L.impl_doc_norm(L.parse_text(r[1])) if r[1] is not None else None]
+                r, _ = observe_doc(r[1], fmt)
             lines.append(L.dumps([px + "serialize", L.val("bad-graph"), fmt]))
             expect.append((r, {"op": "serialize-malformed", "variant": v, "fmt": fmt, "disjoint": im.disjoint}))
             res.count("malformed:%s%s:%s:%s" % (px, v, fmt, "ok" if r[0] == "ok" else r[1]))
@@ -321,6 +364,7 @@ def correspondence(ctx, res):
             mj = ["ok", L.lean_doc_norm(mj[1])]
         if canon(mj) != canon(exp):
             res.disagreements.append({"case": meta, "impl": _short(exp), "model": _short(mj)})
+    search.all_disagreements = list(res.disagreements)
     k = next((i for i, (e, m) in enumerate(expect) if m.get("op") == "serialize"), None)
     if k is not None:
         res.sample({"request": expect[k][1]["op"], "impl": _short(expect[k][0], 400), "model": _short(json.loads(model[k]), 400)})
@@ -401,9 +445,33 @@ def nid_signature(fmt, before, after):
 
 
 def check_case(case, res, sink=None):
-    """case = {"scenario": …, "fmt", "entry", "policy"}: evaluates C01 on the implementation"""
+    """never raises: an exception of the implementation outside the calls the property speaks about, or of the
+    harness while reading the implementation's output, is itself recorded with the concrete case"""
+    try:
+        _check_case(case, res, sink)
+    except core.Infra:
+        raise
+    except Exception as e:
+        import traceback
+        res.violation("C01:%s:%s:unexpected-exception:%s" % (case.get("fmt"), case.get("entry"), err_kind(e)),
+                      "evaluating the case raised %s: %s" % (type(e).__name__, str(e)[:300]), case,
+                      observed=traceback.format_exc()[-800:])
+
+
+def _check_case(case, res, sink=None):
+    """case = {"scenario": …, "fmt", "entry", "policy", "mutate"?}: evaluates C01 on the implementation.
+    With "mutate" the held model is edited between serialisation and import; the store must hold the *saved*
+    content under the imported id afterwards (and, for a new id, the edited model must be untouched)."""
     sc, fmt, entry, policy = case["scenario"], case["fmt"], case["entry"], case["policy"]
-    im, gids = build_scenario(sc)
+    flav = "disjoint" if sc.get("disjoint") else "shared"
+
+    def bad(sig, what, **kw):
+        res.violation("C01:" + sig, what, case, **kw)
+    try:
+        im, gids = build_scenario(sc)
+    except Exception as e:
+        bad("build:%s" % err_kind(e), "building the model through the library raised %s: %s" % (type(e).__name__, e))
+        return
     try:
         tgt = gids[sc["target"]]
         others = {g: L.snapshot(im.st, g) for g in gids if g != tgt}
@@ -414,9 +482,6 @@ def check_case(case, res, sink=None):
             valid_before = True
         except Exception:
             valid_before = False
-
-        def bad(sig, what, **kw):
-            res.violation("C01:" + sig, what, case, **kw)
         try:
             text = im.serialize(tgt, fmt)
         except Exception as e:
@@ -425,16 +490,26 @@ def check_case(case, res, sink=None):
         if text is None:
             bad("%s:serialize-none" % fmt, "serialize_graph returned None for a stored graph")
             return
-        doc = L.parse_text(text)
-        if fmt == "graphml":
+        try:
+            doc = L.parse_text(text)
+        except Exception as e:
+            bad("%s:text-unreadable" % fmt, "the serialized text cannot be read as %s: %s" % (fmt, e), observed=text[:400])
+            doc = None
+        if fmt == "graphml" and doc is not None:
             me = L.markup_errors(doc)
             if me:
                 bad("graphml:label-markup", "node/edge element without the label markup of the persistent importer", observed=me[:3])
+        edited = None
+        if case.get("mutate"):
+            nids = L.node_ids(im, tgt)
+            L.mutate_graph(im.graph(tgt), nids, case["mutate"])
+            edited = L.snapshot(im.st, tgt)
         newid = tgt if (policy == "keep" or entry.endswith("direct")) else "copy-of-" + tgt
         try:
             got = im.import_(entry, text, newid if entry in ("string", "file") else None)
         except Exception as e:
-            bad("%s:%s:import-raises:%s" % (fmt, entry, err_kind(e)), "import of the library's own text raised %s: %s" % (type(e).__name__, e))
+            bad("%s:%s:import-raises:%s" % (fmt, entry, err_kind(e)), "import of the library's own text raised %s: %s" % (type(e).__name__, e),
+                observed=text[:600])
             return
         if got != newid:
             bad("%s:%s:graph-id" % (fmt, entry), "imported graph has id %r, expected %r" % (got, newid))
@@ -444,12 +519,19 @@ def check_case(case, res, sink=None):
         b2 = dict(before, graph_ids=None)
         a2 = dict(after, graph_ids=None) if after is not None else None
         if a2 != b2:
-            sig = nid_signature(fmt, before, after)
-            detail = None
-            if sig is None:
-                sig, detail = diff_signature(fmt, before, after)
-            bad(sig or (fmt + ":content-differs"), "content after import differs from content before serialisation",
-                expected=_short(before, 600), observed=_short(detail if detail is not None else after, 600))
+            if edited is not None and a2 == dict(edited, graph_ids=None) and got == tgt:
+                # the store still holds the edited model: the saved text was not loaded
+                fn = "add_graph" if entry in ("string", "file") else "add_graph_direct"
+                bad("%s:%s:keeps-edited-model-instead-of-saved-text" % (flav, fn),
+                    "after editing the held model and importing the saved text under the same id the store still holds the edited content",
+                    expected=_short(before, 600), observed=_short(after, 600))
+            else:
+                sig = nid_signature(fmt, before, after)
+                detail = None
+                if sig is None:
+                    sig, detail = diff_signature(fmt, before, after)
+                bad(sig or (fmt + ":content-differs"), "content after import differs from content before serialisation",
+                    expected=_short(before, 600), observed=_short(detail if detail is not None else after, 600))
         else:
             # re-serialisation gives the same content
             try:
@@ -465,6 +547,8 @@ def check_case(case, res, sink=None):
                     im.graph(got).validate_graph()
                 except Exception as e:
                     bad("%s:%s:validate-after-import" % (fmt, entry), "validate_graph() fails after import: %s" % e)
+        if edited is not None and got != tgt and L.snapshot(im.st, tgt) != edited:
+            bad("%s:%s:held-model-touched" % (fmt, entry), "importing the saved text under a new id changed the (edited) held model")
         for g, s in others.items():
             if L.snapshot(im.st, g) != s:
                 bad("%s:%s:other-graph-touched" % (fmt, entry), "importing changed another graph (%s)" % g)
@@ -478,12 +562,13 @@ def oracle(ctx, res, n=None):
     rng = ctx.sub_rng("oracle")
     # 1. deterministic corpus cases, all formats and entry points
     for c in corpus_cases():
-        sc = {"graphs": [{"kind": "raw", "gid": "corpus", "spec": c["spec"]}], "target": 0}
-        for fmt in c.get("fmts", ["graphml", "json"]):
-            for entry, policy in IMPORT_PLAN:
-                res.evaluations += 1
-                res.count("corpus:" + c["file"])
-                check_case({"scenario": sc, "fmt": fmt, "entry": entry, "policy": policy}, res)
+        for disj in ([False, True] if c.get("disjoint") == "both" else [bool(c.get("disjoint"))]):
+            sc = {"graphs": [{"kind": "raw", "gid": "corpus", "spec": c["spec"]}], "target": 0, "disjoint": disj}
+            for fmt in c.get("fmts", ["graphml", "json"]):
+                for entry, policy in IMPORT_PLAN:
+                    res.evaluations += 1
+                    res.count("corpus:" + c["file"])
+                    check_case({"scenario": sc, "fmt": fmt, "entry": entry, "policy": policy, "mutate": c.get("mutate")}, res)
     # 2. generated
     n = n or ctx.scale(150, 1500)
     ntopo = ctx.scale(40, 400)
@@ -501,7 +586,10 @@ def oracle(ctx, res, n=None):
         for fmt, entry, policy in picks:
             res.evaluations += 1
             res.count("%s:%s:%s:%s" % ("topo" if topo else "raw", fmt, entry, policy))
-            case = {"scenario": sc, "fmt": fmt, "entry": entry, "policy": policy}
+            case = {"scenario": sc, "fmt": fmt, "entry": entry, "policy": policy,
+                    "mutate": ("o%d-%d" % (i, rng.randrange(10 ** 6))) if rng.random() < 0.5 else None}
+            res.count("history:%s:%s:%s" % ("disjoint" if sc.get("disjoint") else "shared",
+                                            "save-edit-reload" if case["mutate"] else "save-reload", policy))
 
             def sink(im, tgt, before, valid, case=case):
                 if before["edges"] and any(isinstance(x[1][1], str) and x[1][1] and not x[1][1].isalnum()
@@ -522,7 +610,35 @@ def oracle(ctx, res, n=None):
 
 
 def search(ctx, res, broken):
-    oracle(ctx, res, n=ctx.scale(1500, 6000))
+    """a link broke and the oracle was silent: first the scenarios on which model and code differ, through the
+    oracle with every format x entry x policy x (plain | edited-after-save); then the general generator, larger"""
+    seen = set()
+    known = {k["signature"] for k in core.load_known("C01") if k.get("status") == "known"}
+
+    def fresh():
+        return [v for v in res.violations if v["signature"] not in known]
+    for link, detail in broken:
+        if link != "correspondence" or not isinstance(detail, list):
+            continue
+        for d in list(detail) + list(getattr(search, "all_disagreements", []))[:40]:
+            sc = (d.get("case") or {}).get("scenario")
+            if not sc:
+                continue
+            key = canon(sc)
+            if key in seen:
+                continue
+            seen.add(key)
+            for tgt in range(len(sc["graphs"])):
+                sc2 = dict(sc, target=tgt)
+                for fmt in ("graphml", "json"):
+                    for entry, policy in IMPORT_PLAN:
+                        for mut in (None, sc.get("mutate") or "search-1", "search-2"):
+                            res.evaluations += 1
+                            check_case({"scenario": sc2, "fmt": fmt, "entry": entry, "policy": policy, "mutate": mut}, res)
+            if fresh() and len(seen) >= 3:
+                break
+    if not fresh():
+        oracle(ctx, res, n=ctx.scale(1500, 6000))
 
 
 def replay(ctx, payload):
@@ -530,4 +646,7 @@ def replay(ctx, payload):
     check_case(payload["case"], r)
     for v in r.violations:
         print("  ", v["signature"], v["what"])
-    return any(v["signature"] == payload.get("signature") for v in r.violations) or bool(r.violations)
+    known = {k["signature"] for k in core.load_known("C01") if k.get("status") == "known"}
+    if payload.get("signature"):
+        return any(v["signature"] == payload["signature"] for v in r.violations)
+    return any(v["signature"] not in known for v in r.violations)
